@@ -58,12 +58,38 @@ class Fan:
         return cond
 
 
+CTX_CALL_LIMIT_S = 20
+
+
 def call(fn, *a, **k):
     """('ok', value) | ('exc', exception, documented?)"""
     try:
         return ("ok", fn(*a, **k))
     except Exception as err:  # noqa: BLE001
         return ("exc", err, isinstance(err, (ValueError, TypeError)))
+
+
+class _Slow(Exception):
+    pass
+
+
+def call_limited(seconds, fn, *a, **k):
+    """call() under a wall-clock limit (SIGALRM): ('slow',) when the call does not come back in time -- a mutant whose cost field
+    was altered beyond the format's limits must be refused, not evaluated at a clamped maximum cost"""
+    import signal
+
+    def on_alarm(signum, frame):
+        raise _Slow()
+
+    old = signal.signal(signal.SIGALRM, on_alarm)
+    signal.setitimer(signal.ITIMER_REAL, seconds)
+    try:
+        return call(fn, *a, **k)
+    except _Slow:
+        return ("slow",)
+    finally:
+        signal.setitimer(signal.ITIMER_REAL, 0)
+        signal.signal(signal.SIGALRM, old)
 
 
 def positions(n, tier):
@@ -135,9 +161,23 @@ def mutants(s, tier):
         for i in range(0, len(toks), 2):
             if toks[i]:
                 yield "emptyfield", "".join(toks[:i] + [""] + toks[i + 1 :])
+    # fields made one character longer / shorter with a character of their own alphabet (an over-long salt, a cost
+    # digit more): never positional-thinned, these are the edits a lenient ("relaxed") parser would silently repair
+    if 3 <= len(toks) <= 41:
+        for i in range(0, len(toks), 2):
+            if toks[i]:
+                yield "fieldext", "".join(toks[:i] + [toks[i] + toks[i][-1]] + toks[i + 1 :])
+                yield "fieldext", "".join(toks[:i] + [toks[i][0] + toks[i]] + toks[i + 1 :])
+                if len(toks[i]) > 1:
+                    yield "fieldcut", "".join(toks[:i] + [toks[i][:-1]] + toks[i + 1 :])
     # numeric fields
     for a, b in numeric_runs(s):
         num = s[a:b]
+        if len(num) < 12:
+            for d in (-1, 1, -2):
+                if int(num) + d >= 0:
+                    w = str(int(num) + d)
+                    yield "numstep", s[:a] + (w.rjust(len(num), "0") if num.startswith("0") and len(num) > 1 else w) + s[b:]
         for rep in ("0" + num, "00" + num, "9" * 20, "1" + "0" * 19, "-" + num, "+" + num, " " + num, num + " ", "0x" + num, "", "0", num + ".0", num + "e0", "١"):
             yield "num", s[:a] + rep + s[b:]
     # whole-string letter case
@@ -418,9 +458,21 @@ def build(tier, rng):
             fan.check(picked is None or isinstance(picked, str), f"{pre}-identify-type", "CryptContext.identify answered neither a scheme name nor None", lambda: {**wit("ctx.identify(presented)"), "got": repr(picked)})
         run_verify = True
         pinfo = by_name.get(picked) if isinstance(picked, str) else None
-        if pinfo is not None and pinfo.is_generic:
-            po = call(pinfo.parse, m)
-            if po[0] == "ok":
+
+        def parser_of(hd):
+            """(from_string, string to hand it) of a hasher or of the hasher a PrefixWrapper wraps"""
+            if hasattr(hd, "from_string"):
+                return hd.from_string, m
+            if hasattr(hd, "wrapped") and hasattr(hd, "_unwrap_hash"):
+                inner = call(hd._unwrap_hash, m if isinstance(m, str) else m.decode("latin-1"))
+                if inner[0] == "ok" and hasattr(hd.wrapped, "from_string"):
+                    return hd.wrapped.from_string, inner[1]
+            return None, None
+
+        if pinfo is not None:
+            sp, sarg = parser_of(pinfo.h)
+            po = call(sp, sarg) if sp else None
+            if po is not None and po[0] == "ok":
                 oc = None
                 if sm is not None and pinfo is info:
                     oc = sm_cost.get(id(sm))
@@ -429,12 +481,27 @@ def build(tier, rng):
                     ref = oc or (c[0], pinfo.h.min_rounds if c[0] == "linear" else pinfo.h.min_rounds, 8, 1)
                     if not affordable(pinfo, ref, c):
                         run_verify = False
+            elif po is not None:
+                # the scheme's own parser refuses the string: the context's customised copy of the scheme must refuse it too
+                # (a lenient copy would repair an altered salt / clamp an altered cost and then verify -- possibly at maximum cost)
+                rec = call(ctx.handler, picked)
+                lp, larg = parser_of(rec[1]) if rec[0] == "ok" else (None, None)
+                if lp:
+                    lo = call(lp, larg)
+                    if lo[0] == "ok":
+                        run_verify = False
+                        fan.fail(f"{pre}-record-parses-leniently:{picked}", "the context's copy of the scheme parses a mutated hash that the scheme itself refuses (altered field silently repaired)",
+                                 {**wit("ctx.handler(scheme).from_string(presented)"), "picked_scheme": picked, "strict_error": repr(po[1])[:120], "lenient_salt": repr(getattr(lo[1], "salt", None))[:60], "lenient_rounds": repr(getattr(lo[1], "rounds", None))})
         secret = sm.secret if sm else G.PW
         calls = [("needs_update", lambda: ctx.needs_update(m))]
         if run_verify:
             calls += [("verify", lambda: ctx.verify(secret, m, **kw)), ("verify_and_update", lambda: ctx.verify_and_update(secret, m, **kw))]
         for cname, fn in calls:
-            o = call(fn)
+            o = call_limited(CTX_CALL_LIMIT_S, fn)
+            if o[0] == "slow":
+                fan.fail(f"{pre}-not-refused-in-time:{picked}:{cname}", f"CryptContext.{cname} of a mutated hash did not answer within {CTX_CALL_LIMIT_S} s (the scheme's own parser "
+                         "refuses it or reads an affordable cost: a leniently repaired / clamped cost field?)", {**wit(f"ctx.{cname}(...)"), "picked_scheme": picked})
+                break
             if o[0] == "exc":
                 fan.check(o[2], f"{pre}-internal-error:{picked}:{exc_name(o)}:{cname}", f"CryptContext.{cname} raised {exc_name(o)} (neither ValueError nor TypeError)", lambda: {**wit(f"ctx.{cname}(...)"), "picked_scheme": picked, "exception": repr(o[1])[:160]})
                 continue
